@@ -277,6 +277,23 @@ def g_quick(k: int) -> bool:
         return ok
 
 
+def g_quick3(k: int) -> bool:
+    """Three snapshots (two of the caller, the third of any user) x 3x2 reference matrix x {delete both, delete first, clean}.
+    pre: shard(3 * 64 * 3)[0] <= k < shard(3 * 64 * 3)[1]
+    post: _
+    """
+    o2, bits, opi = digits(k, [3, 64, 3])
+    with NoTracing():
+        owners = ['A', 'A', OWNERS[o2]]
+        refs = _refs_from_bits(bits, 3, 2)
+        op = ['del01', 'del0', 'clean'][opi]
+        ok, msg = run_case(True, 'A', owners, refs, [(0, 3)], op)
+        tick('g_quick3', [owners, refs, op])
+        if not ok:
+            _say(owners, refs, op, msg)
+        return ok
+
+
 def g_unenc(k: int) -> bool:
     """Unencrypted repository: one family, every user may delete anything.
     pre: shard(64 * 3 * 5)[0] <= k < shard(64 * 3 * 5)[1]
